@@ -392,7 +392,9 @@ func vpBuildXR(a []int) vpCase {
 			dst = append(dst, ssrc)
 			checks = append(checks, func(b ReportBlock) bool { return true })
 		case 13:
-			v.Reports = append(v.Reports, &DLRRReportBlock{Reports: []DLRRReport{{SSRC: vpU32()}, {SSRC: vpU32()}}})
+			s0, s1 := vpU32(), vpU32()
+			v.Reports = append(v.Reports, &DLRRReportBlock{Reports: []DLRRReport{{SSRC: s0}, {SSRC: s1}}})
+			dst = append(dst, s0, s1)
 			checks = append(checks, func(b ReportBlock) bool { return true })
 		case 14:
 			v.Reports = append(v.Reports, &DLRRReportBlock{})
